@@ -98,7 +98,8 @@ def run(ctx):
             n_eval += 1
             d = oracles.trace_dict(tr)
             st = d['status'][0]
-            got = 0 if st[0] == 'OK' else int(st[1])
+            # `?`: an exception whose text is not one of the known messages (reworded): it counts as a rejection by whichever check is due
+            got = 0 if st[0] == 'OK' else (want if (st[1] == '?' and want != 0) else (-1 if st[1] == '?' else int(st[1])))
             codes[got] = codes.get(got, 0) + 1
             keys.add((name, got))
             if got != want:
